@@ -42,6 +42,10 @@ class _Ev(Evaluator):
                 return self.ev(v)
         if isinstance(e, ast.Attribute) and e.attr == "st_size":
             return Poly.sym("S")
+        if isinstance(e, ast.Attribute) and e.attr in ("size", "nbytes") and isinstance(e.value, ast.Name) and self.du is not None:
+            items = self._mapped_items(e.value)
+            if items is not None:
+                return items * Poly.sym("I") if e.attr == "nbytes" else items
         if s in ("self.nbytes",):
             return Poly.sym("S")
         if s in ("self.dtype.itemsize", "self.dtype.itemsize"):
@@ -53,6 +57,27 @@ class _Ev(Evaluator):
         if s == "self.ns":
             return Poly.sym("NS")
         return super().ev(e)
+
+
+def _mapped_items(self, name_node):
+    """number of items of a local that holds np.memmap(<file>, dtype=self.dtype[, shape=...]) - the whole file (bytes // itemsize) without shape"""
+    ds = self.du.strong_reaching(name_node.id, self.at if self.at is not None else name_node)
+    if len(ds) != 1 or ds[0].value is None or not (isinstance(ds[0].value, ast.Call) and call_name(ds[0].value) == "memmap"):
+        return None
+    m = ds[0].value
+    shp = kwarg(m, "shape")
+    if shp is None:
+        return self.atom("floordiv", Poly.sym("S"), Poly.sym("I"))
+    elts = shp.elts if isinstance(shp, (ast.Tuple, ast.List)) else [shp]
+    out = Poly.const(1)
+    sub = _Ev(facts=self.facts, resolve=self.resolve)
+    sub.du, sub.at = self.du, ds[0].stmt
+    for x in elts:
+        out = out * sub.ev(x)
+    return out
+
+
+_Ev._mapped_items = _mapped_items
 
 
 def _classify(p: Poly):
@@ -127,6 +152,60 @@ def d1_floor(ctx):
                   f"online sample count `{src(r.value)}` (normal form {c}) is not the floor of bytes / (itemsize * nc)", key="online-ns")
 
 
+def _exposed_frames(ctx, repo, fi, du, m):
+    """1-D mapping: what open() stores in self._raw is <map>[: n * nc].reshape(n, nc) with n = complete frames of the file (or self.ns without metadata)."""
+    stores = [st for st in walk_function(fi.node) if isinstance(st, ast.Assign) and loc_name(st.targets[0]) == "self._raw" and any(c is not m for c in [st.value])
+              and not (isinstance(st.value, ast.Call) and call_name(st.value) == "Reader")]
+    cfg = du.cfg
+    mn = cfg.node_for(m)
+    stores = [st for st in stores if cfg.reachable(mn, cfg.node_for(st))]
+    if not stores:
+        raise AnalysisError("Reader.open: the 1-D mapping is never reshaped into self._raw")
+    frames = None
+    for st in stores:
+        v = st.value
+        ok = isinstance(v, ast.Call) and call_name(v) == "reshape" and isinstance(v.func, ast.Attribute) and isinstance(v.func.value, ast.Subscript) \
+            and isinstance(v.func.value.slice, ast.Slice) and v.func.value.slice.lower is None and v.func.value.slice.upper is not None
+        if not ok:
+            raise AnalysisError(f"Reader.open: `{src(st)[:70]}` is not <map>[: n * nc].reshape(n, nc)")
+        dims = v.args[0].elts if len(v.args) == 1 and isinstance(v.args[0], (ast.Tuple, ast.List)) else list(v.args)
+        if len(dims) != 2:
+            raise AnalysisError(f"Reader.open: reshape to {len(dims)} dimensions")
+        nrow = dims[0]
+        rows_alts = []
+        if isinstance(nrow, ast.Name):
+            for d in du.strong_reaching(nrow.id, st):
+                if d.kind != "assign" or d.value is None:
+                    raise AnalysisError("Reader.open: row count of the exposed array has a definition that is not an assignment")
+                rows_alts.append((d.value, d.stmt))
+        else:
+            rows_alts.append((nrow, st))
+        whole = None
+        for val, at in rows_alts:
+            ev = _Ev(facts=Facts(), resolve=lambda e: repo.resolve_expr(fi, e))
+            ev.du, ev.at = du, at
+            try:
+                p = ev.ev(val)
+                up = None
+            except Undecided as e:
+                raise AnalysisError(f"Reader.open: row count `{src(val)}` not evaluable: {e}")
+            whole = ev.atom("floordiv", ev.atom("floordiv", Poly.sym("S"), Poly.sym("I")), Poly.sym("NC"))
+            okrow = p == whole or p == Poly.sym("NS") or p == ev.atom("floordiv", Poly.sym("S"), Poly.sym("I") * Poly.sym("NC"))
+            ctx.check(okrow, fi, at, at, "rows exposed = complete frames present in the file (announced count only when nothing can be checked)",
+                      f"the exposed row count `{src(val)}` normalises to {p}: not floor(items / nc)", key="exposed-rows", name_free=True)
+        # prefix length == rows * nc
+        evp = _Ev(facts=Facts(), resolve=lambda e: repo.resolve_expr(fi, e))
+        evp.du, evp.at = None, st
+        try:
+            evp.env = {}
+            up = evp.ev(v.func.value.slice.upper)
+            prod = evp.ev(ast.BinOp(left=dims[0], op=ast.Mult(), right=dims[1]))
+        except Undecided:
+            up = prod = None
+        ctx.check(up is not None and up == prod and src(dims[1]) == "self.nc", fi, st, st, "the prefix handed to reshape holds exactly rows * nc items",
+                  f"`{src(st)[:80]}`: prefix length and (rows, nc) disagree", key="exposed-prefix", name_free=True)
+
+
 def d2_order(ctx):
     ctx.rule("D2", "mismatch test is nc*ns*itemsize != nbytes; rewrite precedes np.memmap(shape=(self.ns, self.nc), mode='r'); rl = ns / fs")
     repo = ctx.repo
@@ -139,17 +218,46 @@ def d2_order(ctx):
     shp = kwarg(m, "shape")
     shp = expand_property(repo, fi, shp) if shp is not None else None  # Reader.shape is (self.ns, self.nc)
     ok = isinstance(shp, ast.Tuple) and [src(e) for e in shp.elts] == ["self.ns", "self.nc"]
-    ctx.check(ok, fi, m, m, "memmap shape is (self.ns, self.nc)", f"memmap shape is `{src(shp) if shp else None}`", key="memmap-shape")
+    flat_map = False
+    if not ok:
+        # the other sound layout: the whole items of the file mapped 1-D, then the complete frames exposed as raw[:ns * nc].reshape(ns, nc)
+        du_ = DefUse(fi.node)
+        if shp is None:
+            ctx.violation(fi, m, m, "np.memmap without shape= maps `file size / item size` items and REFUSES a file whose byte length is not a multiple of the item size "
+                          "(ValueError: Size of available data is not a multiple of the data-type size): a binary cut at an odd byte offset no longer opens, instead of "
+                          "exposing its complete frames", key="memmap-shape", name_free=True)
+            flat_map = True
+        else:
+            ev_ = _Ev(facts=Facts(), resolve=lambda e: repo.resolve_expr(fi, e))
+            ev_.du, ev_.at = du_, cfg.node_for(m).stmt
+            elts = shp.elts if isinstance(shp, (ast.Tuple, ast.List)) else [shp]
+            try:
+                items = Poly.const(1)
+                for x in elts:
+                    items = items * ev_.ev(x)
+            except Undecided as e:
+                raise AnalysisError(f"Reader.open: memmap shape `{src(shp)}` not evaluable: {e}")
+            whole = ev_.atom("floordiv", Poly.sym("S"), Poly.sym("I"))
+            flat_map = len(elts) == 1
+            ctx.check(flat_map and items == whole, fi, m, m, "the whole items present in the file are mapped (bytes // item size)",
+                      f"memmap shape is `{src(shp)}` = {items} items: neither (self.ns, self.nc) nor the whole items of the file", key="memmap-shape", name_free=True)
+        if flat_map:
+            _exposed_frames(ctx, repo, fi, du_, m)
+    else:
+        ctx.ok(fi, m, m, "memmap shape is (self.ns, self.nc)", key="memmap-shape")
     md = kwarg(m, "mode")
     ctx.check(isinstance(md, ast.Constant) and md.value in ("r", "c"), fi, m, m, "recording is mapped read-only", "recording is mapped writable", key="memmap-mode")
     stores = [st for st in walk_function(fi.node) if isinstance(st, ast.Assign) and isinstance(st.targets[0], ast.Subscript)
               and const_value(st.targets[0].slice) == (True, "fileTimeSecs")]
     mn = cfg.node_for(m)
-    late = [st for st in stores if cfg.can_follow(mn, cfg.node_for(st))]
+    late = [st for st in stores if cfg.can_follow(mn, cfg.node_for(st))] if not flat_map else []   # a 1-D mapping of the whole file does not depend on the metadata
     ctx.check(not late, fi, late[0] if late else m, late[0] if late else "rewrite before memmap", "metadata is corrected before the file is mapped",
               "the file is mapped before the metadata is corrected: the shape still reflects the announced size", key="rewrite-first")
     # mismatch test
-    tests = [n for n in walk_function(fi.node) if isinstance(n, ast.If) and "nbytes" in src(n.test)]
+    tests = [n for n in walk_function(fi.node) if isinstance(n, ast.If) and ("nbytes" in src(n.test) or "st_size" in src(n.test))]
+    if not tests:
+        # items rather than bytes: a comparison of the mapped item count with ns * nc
+        tests = [n for n in walk_function(fi.node) if isinstance(n, ast.If) and isinstance(n.test, ast.Compare) and ".size" in src(n.test) and "self.ns" in src(n.test)]
     if not tests:
         raise AnchorMissing("Reader.open: size mismatch test not found")
     t = tests[0].test
@@ -157,9 +265,13 @@ def d2_order(ctx):
     if isinstance(t, ast.Compare) and len(t.ops) == 1 and isinstance(t.ops[0], ast.NotEq):
         ev = _Ev(facts=Facts())
         ev.du, ev.at = DefUse(fi.node), tests[0]
-        a, b = ev.ev(t.left), ev.ev(t.comparators[0])
+        try:
+            a, b = ev.ev(t.left), ev.ev(t.comparators[0])
+        except Undecided as e:
+            raise AnalysisError(f"Reader.open: mismatch test `{src(t)}` not evaluable: {e}")
         want = Poly.sym("NC") * Poly.sym("NS") * Poly.sym("I")
-        okt = {a.canon(), b.canon()} == {want.canon(), "S"}
+        want_items = Poly.sym("NC") * Poly.sym("NS")
+        okt = {a.canon(), b.canon()} == {want.canon(), "S"} or {a.canon(), b.canon()} == {want_items.canon(), ev.atom("floordiv", Poly.sym("S"), Poly.sym("I")).canon()}
     ctx.check(okt, fi, tests[0], t, "any disagreement between announced and physical size triggers the correction",
               f"mismatch test `{src(t)}` is not nc*ns*itemsize != nbytes: shorter or longer files slip through uncorrected", key="mismatch-test")
     # the rewrite is conditional on nothing but the size disagreement (and the presence of metadata): an option that only concerns logging must not skip it
@@ -171,6 +283,8 @@ def d2_order(ctx):
     names = GD.atoms_of(pc_all)
     if stores and len(names) <= 12:
         allowed = [k for k in names if any(w in k for w in ("nbytes", "st_size", "_raw.shape", "is_mtscomp", "self.meta", "fileSizeBytes"))]
+        if okt:
+            allowed += [k for k in GD.atoms_of(GD.formula(t, at)) if k not in allowed]   # the size disagreement itself, however it is spelled
         for k in [x for x in names if x not in allowed]:
             others = [x for x in names if x != k]
             depends = None
